@@ -358,22 +358,31 @@ inductive Sink
   | ownPacket           -- on_packet_from_circuit(origin, data, circuit_id): IPv8 packet of the tunnel community itself
   | otherCommunity      -- endpoint.notify_listeners((origin, data), from_tunnel=True)
   | droppedNoTunnelEndpoint
-  | droppedNestedData   -- a DATA message (id 1) inside a tunnel-community packet: refused (repo fix 6e0f2ad)
+  | droppedNestedData   -- a cell message inside a returned tunnel-community packet whose id is not registered to arrive
+                        -- through an exit (`exit_msg_ids`, repo fixes 6e0f2ad / 5d1ce5c): refused
   | exitSocket          -- exit_data(...)
   | droppedZeroDest
   deriving DecidableEq, Repr
 
+/-- a returned packet that carries the tunnel community's own prefix: re-dispatched as a cell message only when its message
+    id is registered to arrive through an exit -/
+def ownPrefixSink (exitIds : List UInt8) (data : Bytes) : Sink :=
+  match data[22]? with
+  | some b => if exitIds.contains b then .ownPacket else .droppedNestedData
+  | none => .droppedNestedData
+
 /-- `own` = type of the receiving node's own circuit with that id (if any); `originSet` = truthiness of the origin
     address; `fromFirstHop` = `sock_addr == circuit.hop.address`; `pfx` = the community prefix;
-    `tunnelEp` = the endpoint is a `TunnelEndpoint`; `destZero` = destination is 0.0.0.0:0 -/
+    `tunnelEp` = the endpoint is a `TunnelEndpoint`; `destZero` = destination is 0.0.0.0:0;
+    `exitIds` = `TunnelCommunity.exit_msg_ids` (empty in the base community; 13, 14, 17, 18 in HiddenTunnelCommunity) -/
 def onDataSink (own : Option CType) (originSet fromFirstHop : Bool) (pfx : Bytes) (tunnelEp destZero : Bool)
-    (data : Bytes) : Sink :=
+    (data : Bytes) (exitIds : List UInt8 := []) : Sink :=
   let exitBranch : Sink := if destZero then .droppedZeroDest else .exitSocket
   match own with
   | some ct =>
     if originSet && fromFirstHop then
       if couldBeIpv8 data && !isE2EType ct then
-        if data.take 22 == pfx then (if data[22]? == some 1 then .droppedNestedData else .ownPacket)
+        if data.take 22 == pfx then ownPrefixSink exitIds data
         else if tunnelEp then .otherCommunity else .droppedNoTunnelEndpoint
       else .raw
     else exitBranch
